@@ -944,6 +944,14 @@ class PGPMessage(Armorable, PGPObject):
         return list(self._signatures)
 
     @property
+    def signed_text(self):
+        """What a signature over this message covers: for cleartext messages the text without the trailing
+        blanks of its lines (RFC 4880 7.1: trailing whitespace is not signed); otherwise the message contents."""
+        if self.type == 'cleartext':
+            return re.sub(r'[ \t]+(\r?)$', r'\1', self.message, flags=re.MULTILINE)
+        return self.message
+
+    @property
     def signers(self):
         """A ``set`` containing all key ids (if any) which have signed this message."""
         return set(m.signer for m in self._signatures)
@@ -2078,7 +2086,7 @@ class PGPKey(Armorable, ParentRef, PGPObject):
             if subject.type == 'cleartext':
                 sig_type = SignatureType.CanonicalDocument
 
-            subject = subject.message
+            subject = subject.signed_text
 
         sig = PGPSignature.new(sig_type, self.key_algorithm, hash_algo, self.fingerprint.keyid, created=prefs.pop('created', None))
 
@@ -2469,7 +2477,7 @@ class PGPKey(Armorable, ParentRef, PGPObject):
         if signature is None:
             if isinstance(subject, PGPMessage):
                 for sig in _filter_sigs(subject.signatures):
-                    sspairs.append((sig, subject.message))
+                    sspairs.append((sig, subject.signed_text))
 
             if isinstance(subject, (PGPUID, PGPKey)):
                 sspairs += [ (sig, subject) for sig in _filter_sigs(subject.__sig__) ]
